@@ -18,6 +18,7 @@ type fsModel struct {
 	fIndex    *types.Var
 	fPath     *types.Var
 	rawPath   *ssa.Function
+	rawFns    map[*ssa.Function]bool
 	fns       []*ssa.Function
 	effects   []fsEffect
 	writeIdx  *ssa.Function
@@ -158,7 +159,7 @@ func (m *fsModel) classIn(v ssa.Value, env *fsEnv, depth int) string {
 	}
 	switch x := v.(type) {
 	case *ssa.Call:
-		if eng.StaticCallee(x.Common()) == m.rawPath {
+		if m.isRawPathFn(eng.StaticCallee(x.Common())) {
 			return "raw"
 		}
 		switch eng.CalleeName(x.Common()) {
@@ -943,7 +944,7 @@ func (c *Ctx) c11Remove(m *fsModel) {
 		} else if ad := eng.LoadAddr(pa); ad != nil {
 			if cell := eng.CellOf(ad); cell != nil {
 				for _, st := range eng.CellStores(cell) {
-					if x, ok := st.Val.(*ssa.Call); ok && eng.StaticCallee(x.Common()) == m.rawPath {
+					if x, ok := st.Val.(*ssa.Call); ok && m.isRawPathFn(eng.StaticCallee(x.Common())) {
 						rc = x
 					}
 				}
@@ -955,8 +956,24 @@ func (c *Ctx) c11Remove(m *fsModel) {
 			continue
 		}
 		msg := p.Actual(rc.Call.Args[0])
-		// fresh = result of the message constructor in this function
+		// fresh = result of the message constructor in this function, or the raw path of an id
+		// that was generated here (a call of a function of the package that makes a string from
+		// a time.Time) and names no indexed message yet
 		fresh := false
+		for _, a := range rc.Call.Args {
+			if b, ok := a.Type().Underlying().(*types.Basic); !ok || b.Kind() != types.String {
+				continue
+			}
+			if idc, ok := resolveCell(p.Actual(resolveCell(a))).(*ssa.Call); ok {
+				if g := eng.StaticCallee(idc.Common()); g != nil && eng.FuncPkgPath(g) == eng.Mod+"/pkg/storage/file" {
+					for _, ga := range idc.Call.Args {
+						if n, ok := ga.Type().(*types.Named); ok && n.Obj().Pkg() != nil && n.Obj().Pkg().Path() == "time" && n.Obj().Name() == "Time" {
+							fresh = true
+						}
+					}
+				}
+			}
+		}
 		for _, v := range append(eng.ValueAliases(msg), msg) {
 			if ex, ok := v.(*ssa.Extract); ok {
 				if call, ok := ex.Tuple.(*ssa.Call); ok && eng.StaticCallee(call.Common()) == newMsg {
@@ -1074,4 +1091,32 @@ func (c *Ctx) c11Purge(m *fsModel) {
 		}
 	}
 	r.Floor("C11/ORDER/purge", "directory removals", n, 1)
+}
+
+// isRawPathFn: g computes the path of a message's raw file: Message.rawPath itself, or the
+// function of the package whose result rawPath hands back unchanged (mbox.rawPathFor(id)).
+func (m *fsModel) isRawPathFn(g *ssa.Function) bool {
+	if g == nil || m.rawPath == nil {
+		return false
+	}
+	if g == m.rawPath {
+		return true
+	}
+	if m.rawFns == nil {
+		m.rawFns = map[*ssa.Function]bool{}
+		eng.EachInstr(m.rawPath, func(in ssa.Instruction) {
+			ret, ok := in.(*ssa.Return)
+			if !ok {
+				return
+			}
+			for _, rv := range eng.ReturnResults(ret) {
+				if call, ok := rv.(*ssa.Call); ok {
+					if h := eng.StaticCallee(call.Common()); h != nil && eng.FuncPkgPath(h) == eng.FuncPkgPath(m.rawPath) {
+						m.rawFns[h] = true
+					}
+				}
+			}
+		})
+	}
+	return m.rawFns[g]
 }
